@@ -79,6 +79,26 @@ pub fn caller_drop<T>(x: T) {
     CALLER_DROP.with(|c| c.set(false));
 }
 
+/// A zero-sized element with a destructor: it has no identity, its drops are only counted (by the caller / by the machinery).
+pub static ZCALLER: AtomicUsize = AtomicUsize::new(0);
+pub static ZMACH: AtomicUsize = AtomicUsize::new(0);
+#[derive(Debug)]
+pub struct Z;
+impl Drop for Z {
+    fn drop(&mut self) {
+        if CALLER_PHASE.load(Ordering::SeqCst) || CALLER_DROP.with(|c| c.get()) {
+            ZCALLER.fetch_add(1, Ordering::SeqCst);
+        } else {
+            ZMACH.fetch_add(1, Ordering::SeqCst);
+        }
+    }
+}
+impl Val for Z {
+    fn value(&self) -> u64 {
+        0
+    }
+}
+
 /// A plain copyable element.
 #[derive(Debug, Clone, Copy, PartialEq)]
 pub struct P(pub u64);
